@@ -97,7 +97,9 @@ def parse(out_line):
     if e != "-":
         code, msg = e.split(":", 1)
         d["err"] = (int(code), bytes.fromhex(msg))
-    if len(t) > 4:
+    if len(t) == 6 and t[4] == "H":
+        d["heap"] = int(t[5])
+    elif len(t) > 4:
         d["noslot_same"] = t[5] == "1"
         d["preset_ok"] = t[7] == "1"
         d["stderr"] = None if t[9] == "-" else bytes.fromhex(t[9])
